@@ -26,18 +26,16 @@ Proof. intros es rel abs. cbn [listing]. induction es as [|p es IH]; [reflexivit
 Definition nf : elem -> option bool := fun _ => Some false.
 
 (** on a link-free tree, without limits and pruning, the declarative set is the listing *)
-Lemma walk_listing : forall t, link_free t = true -> forall rel abs d,
-  walk nf None None t rel abs d = Some (listing t rel abs).
+Lemma walk_listing : forall (O : oracles) t, link_free t = true -> forall rel abs d,
+  walk O nf None None t rel abs d = Some (listing t rel abs).
 Proof.
-  induction t as [c|es IH| |t IH] using tree_ind'; intros LF rel abs d; try reflexivity; try discriminate.
+  intros O. induction t as [c|es IH| |t IH] using tree_ind'; intros LF rel abs d; try reflexivity; try discriminate.
   rewrite walk_Dir, listing_Dir. rewrite link_free_Dir in LF.
   induction es as [|[n c] es IHes]; [reflexivity|]. inversion IH as [|? ? Hc Hes]; subst.
   cbn [forallb snd] in LF. apply andb_true_iff in LF as [LFc LFes]. cbn [snd] in Hc.
-  cbn [walk_list listing_list fst snd in_min at_max negb andb]. cbv zeta. unfold nf at 1.
-  rewrite (IHes Hes LFes).
-  destruct (is_dir c) eqn:Ed.
-  - rewrite (Hc LFc). reflexivity.
-  - destruct c as [fc|sub|l]; [reflexivity | discriminate | discriminate].
+  cbn [walk_list listing_list fst snd in_min at_max]. cbv zeta. unfold nf at 1.
+  rewrite (IHes Hes LFes). unfold dir_test_spec.
+  destruct c as [fc|sub|l]; cbn [resolve]; [reflexivity | rewrite (Hc LFc); reflexivity | discriminate].
 Qed.
 
 (* ---- names as text ---- *)
@@ -131,10 +129,10 @@ Theorem listing_matches_full : forall O t abs,
           (SModel t abs (Rec None None) (fun _ => Some true) nf) = Some true.
 Proof.
   intros O t abs LF WF PT. set (L := listing t [] abs).
-  assert (spec_files (SModel t abs (Rec None None) (fun _ => Some true) nf) = Some L) as ES.
-  { unfold spec_files. cbn [sm_cfg sm_dir sm_abs sm_prune sm_sel]. rewrite (walk_listing t LF [] abs 0). fold L.
+  assert (spec_files O (SModel t abs (Rec None None) (fun _ => Some true) nf) = Some L) as ES.
+  { unfold spec_files. cbn [sm_cfg sm_dir sm_abs sm_prune sm_sel]. rewrite (walk_listing O t LF [] abs 0). fold L.
     clear. induction L as [|e L IH]; cbn [strict_filter]; [reflexivity | rewrite IH; reflexivity]. }
-  pose proof (spec_files_distinct (SModel t abs (Rec None None) (fun _ => Some true) nf) L WF ES) as DR.
+  pose proof (spec_files_distinct O (SModel t abs (Rec None None) (fun _ => Some true) nf) L WF ES) as DR.
   assert (forall e, In e L -> Forall plain_component (e_rel e)) as HP
       by (intros e He; exact (listing_plain t PT [] abs (Forall_nil _) e He)).
   assert (NoDup (map e_rel L)) as ND by (apply distinct_paths_NoDup; exact DR).
